@@ -535,7 +535,11 @@ func main() {
 	realFctFn = queue.VerifSetPageFactory(nil)
 	queue.VerifSetPageFactory(realFctFn)
 	dp, ii, _, _ := queue.VerifConstants()
-	if dp != 64 || ii != 4 {
+	wantPage := 64
+	if v := os.Getenv("C05_PAGE"); v != "" { // a part built with another data page size (thresholds derived from the page size)
+		fmt.Sscan(v, &wantPage)
+	}
+	if dp != wantPage || ii != 4 {
 		vevid.Fatal("page geometry not scaled: dataPageSize=%d indexItemsPerPage=%d", dp, ii)
 	}
 	rep.Bounds["dataPageSize"] = dp
@@ -574,6 +578,17 @@ func main() {
 	}
 	rep.Bounds["preemption_bound"] = bound
 	rep.Rule = fmt.Sprintf("scenarios: 2-3 appender threads with 1-2 appends each, sizes from {0,1,3,30,34,35,60,64} against a 64-byte data page and 4 index items per page (roll-over of both reachable), optional sequential preload; every schedule with <=%d preemptions (-1 = unbounded) (points: every lock/atomic op of pkg/queue, pkg/queue/page and every store into a page); after each schedule: close/reopen/append/reopen on the live directory; a crash image is taken after every store of every schedule and of the reopen phase, every distinct (image bytes, returned appends, in-flight appends) is recovered by the real NewQueue, read back, appended to, reopened. distinct_nontrivial = distinct crash images recovered + schedules with >=1 context switch", bound)
+	if v := os.Getenv("C05_SCEN"); v != "" { // a part that runs a subset of the scenarios
+		var sel []scenario
+		for _, n := range strings.Split(v, ",") {
+			for _, sc := range scenarios {
+				if sc.Name == n {
+					sel = append(sel, sc)
+				}
+			}
+		}
+		scs = sel
+	}
 	runResetVsPut(rep, f, bound) // small: first
 	for si, sc := range scs {
 		sc := sc
